@@ -9,14 +9,23 @@ tok    every DATA text over {a 1 blank , " :} up to a length bound is compiled
        function directly; conformance of the direct call with the compiled
        path is measured on the compiled set.
 conv   READ of one item into each of the five types (typed observation of the
-       value that reaches PRINT); oracle = the statement's conversion rules.
-place  VX: every arrangement of <= n segments from {DATA, label, executed
-       statement, SUB block containing a label, two labels, label followed by
-       a statement} with the driver loop at every position; breadth-first
-       over all sequences of {READ numeric, READ string, RESTORE, RESTORE Li};
-       oracle = cursor over the concatenated item list.
+       value that reaches PRINT), also of a later item of a list; oracle = the
+       statement's conversion rules, five-valued (value / error / value-or-
+       error / error-or-unspecified / unspecified).
+place  VX: every arrangement of <= n elements from {DATA, label+DATA on one
+       line, numbered DATA line, label, line number, executed statement, SUB
+       block containing a label, DATA after a colon, DATA nested in an IF
+       block} with the driver loop at every position; breadth-first over all
+       sequences of {READ numeric, READ string, READ two strings, RESTORE,
+       RESTORE Li}; the driver resets its variables after every operation so
+       the machine state is the read cursor alone and the search *closes*
+       (frontier empty) long before the depth bound: the verdict then holds
+       for operation sequences of any length.  Oracle = cursor over the
+       concatenated item list.  A transition that diverges is reported and
+       not explored further (only first divergences are reported).
 """
 import itertools
+import os
 import re
 
 from .. import impl
@@ -272,11 +281,16 @@ def direct_chunk(chunk):
 # family conv: one item read into each type
 
 TYPES = [('%', 'INTEGER'), ('&', 'LONG'), ('!', 'SINGLE'), ('#', 'DOUBLE'), ('$', 'STRING')]
-CONV_ITEMS = ['', '1', '-2', ' 7 ', '+5', '32767', '-32768', '32768', '-32769', '2147483647',
-              '2147483648', '-2147483649', '1.5', '2.5', '.25', '1e3', '1E3', '1e39', '1e309',
-              'x', '1x', 'a1', '1 2', '"3"', '"x"', '""', '&H10', '1_0', 'nan', 'inf', '1,2']
-_INT_RE = re.compile(r'^[+-]?\d+$')
-_DEC_RE = re.compile(r'^[+-]?(\d+\.?\d*|\.\d+)([eE][+-]?\d+)?$')
+# (DATA text, index of the item that is read into the typed variable; the
+# items before it are read into a string variable)
+CONV_ITEMS = [(t, 0) for t in [
+    '', '1', '-2', ' 7 ', '+5', '32767', '-32768', '32768', '-32769', '2147483647',
+    '2147483648', '-2147483649', '1.5', '2.5', '-0.5', '.25', '1e3', '1E3', '1e39', '1e309',
+    'x', '1x', 'a1', '1 2', '- 1', '"3"', '"x"', '""', '&H10', '1,2', '0x10', '1e', 'e1', '1.2.3', '--1',
+    '1_0', '1_000', '1e1_0', 'nan', 'NaN', '+nan', 'inf', '-inf', 'Infinity']] + \
+    [(',5', 0), ('1,,2', 1), ('1, ,2', 1), ('1,', 1), ('x, 2', 1), ('"a,b",3', 1), ('1,x', 1), ('1,"",2', 1)]
+_INT_RE = re.compile(r'^[+-]?[0-9]+\Z')
+_DEC_RE = re.compile(r'^[+-]?([0-9]+\.?[0-9]*|\.[0-9]+)([eE][+-]?[0-9]+)?\Z')
 RANGES = {'INTEGER': (-32768, 32767), 'LONG': (-2 ** 31, 2 ** 31 - 1)}
 
 
@@ -285,13 +299,25 @@ def _f32(x):
     return struct.unpack('>f', struct.pack('>f', x))[0]
 
 
-def conv_expect(text, tname):
-    """-> ('value', v) | ('error',) | ('unspec', why) for READ of the first
-    item of `DATA <text>` into a variable of type tname"""
+def _half_even(x):
+    import fractions
+    import math
+    f = fractions.Fraction(x)
+    lo = math.floor(f)
+    d = f - lo
+    if d > fractions.Fraction(1, 2) or (d == fractions.Fraction(1, 2) and lo % 2):
+        return lo + 1
+    return lo
+
+
+def conv_expect(text, tname, idx=0):
+    """-> ('value', v) | ('error',) | ('value-or-error', v) | ('error-or-unspec', why) |
+    ('unspec', why) for READ of item `idx` of `DATA <text>` into a variable of
+    type tname"""
     tk = datatok.tokenize(text)
     if tk['status'] != 'spec':
         return ('unspec', tk['status'])
-    kind, s = tk['items'][0]
+    kind, s = tk['items'][idx]
     if tname == 'STRING':
         return ('value', s)
     if kind == 'e':
@@ -308,10 +334,18 @@ def conv_expect(text, tname):
         return ('value', _f32(float(n)) if tname == 'SINGLE' else float(n))
     if _DEC_RE.match(s):
         x = float(s)
-        if tname in RANGES:
-            return ('unspec', 'fractional/exponent numeral into an integer type')
         if x in (float('inf'), float('-inf')):
             return ('unspec', 'numeral beyond the DOUBLE range')
+        if tname in RANGES:
+            # "converted to the type of the receiving variable": the numeral
+            # is a number, the conversion rounds half to even.  The statement
+            # can also be read as demanding an integer numeral, so an error is
+            # tolerated; a *different value* is not.
+            n = _half_even(x)
+            lo, hi = RANGES[tname]
+            if lo <= n <= hi:
+                return ('value-or-error', n)
+            return ('error-or-unspec', 'numeral outside the range of the type')
         if tname == 'SINGLE':
             try:
                 return ('value', _f32(x))
@@ -320,37 +354,57 @@ def conv_expect(text, tname):
         return ('value', x)
     if re.match(r'^&[hHoO]', s):
         return ('unspec', 'BASIC radix numeral')
+    squeezed = s.replace(' ', '')
+    if squeezed != s and (_INT_RE.match(squeezed) or _DEC_RE.match(squeezed)):
+        return ('unspec', 'numeral with blanks inside')
     return ('error',)       # text into a numeric variable
 
 
-def conv_source(text, sfx):
-    return 'read v%s\nprint v%s\ndata %s\n' % (sfx, sfx, text)
+def conv_source(text, sfx, idx=0):
+    return 'read a$\n' * idx + 'read v%s\nprint v%s\ndata %s\n' % (sfx, sfx, text)
 
 
-def conv_item_class(text):
-    s = text.strip()
-    if s in ('1_0', 'nan', 'inf'):
-        return 'host-numeral'
+def _host_accepts(s):
+    for f in (int, float):
+        try:
+            f(s)
+            return True
+        except ValueError:
+            pass
+    return False
+
+
+def conv_item_class(text, idx=0):
+    """input-side class of the item (feature for the ledger)"""
+    tk = datatok.tokenize(text)
+    if tk['status'] != 'spec':
+        return 'unspecified-text'
+    kind, s = tk['items'][idx]
+    if kind == 'e':
+        return 'empty'
+    if kind == 'q':
+        return 'quoted'
     if _INT_RE.match(s):
         return 'integer'
     if _DEC_RE.match(s):
         return 'decimal'
-    if s.startswith('"'):
-        return 'quoted'
-    if s == '':
-        return 'empty'
+    if _host_accepts(s):
+        # not a BASIC numeral, but something the host language's int()/float()
+        # takes: nan, inf, infinity, digits grouped with underscores
+        return 'host-numeral'
     return 'text'
 
 
-def conv_judge(text, sfx, tname, cfg):
+def conv_judge(text, idx, sfx, tname, cfg):
     """-> (violation or None, observation)"""
-    exp = conv_expect(text, tname)
-    r = compile_(conv_source(text, sfx), cfg)
-    feat = {'family': 'conv', 'type': tname, 'item_class': conv_item_class(text), 'config': cfgname(cfg)}
-    case = {'family': 'conv', 'text': text, 'sfx': sfx, 'type': tname, 'config': list(cfg)}
+    exp = conv_expect(text, tname, idx)
+    src = conv_source(text, sfx, idx)
+    r = compile_(src, cfg)
+    feat = {'family': 'conv', 'type': tname, 'item_class': conv_item_class(text, idx), 'config': cfgname(cfg)}
+    case = {'family': 'conv', 'text': text, 'index': idx, 'sfx': sfx, 'type': tname, 'config': list(cfg)}
     if not r.ok:
         obs = ('compile', r.brief())
-        if r.kind in ('crash', 'timeout') or exp[0] in ('value', 'error', 'error-or-unspec'):
+        if r.kind in ('crash', 'timeout') or exp[0] != 'unspec':
             feat['divergence'] = 'compiler-crash' if r.kind in ('crash', 'timeout') else 'rejected'
             return (feat, case, list(exp), r.brief(), len(text)), obs
         return None, obs
@@ -371,6 +425,9 @@ def conv_judge(text, sfx, tname, cfg):
         if obs[0] != 'value':
             div = 'error-instead-of-value'
         elif obs[1] != tname or type(obs[2]) is not type(exp[1]) or obs[2] != exp[1]:
+            div = 'value'
+    elif exp[0] == 'value-or-error':
+        if obs[0] == 'value' and (obs[1] != tname or type(obs[2]) is not type(exp[1]) or obs[2] != exp[1]):
             div = 'value'
     elif exp[0] == 'error':
         if obs[0] == 'value':
@@ -395,11 +452,11 @@ def conv_chunk(chunk):
     impl.parse_cache(True)
     viol = []
     st = {'evaluations': 0, 'conv_cases': 0, 'conv_judged': 0, 'conv_unspecified': 0,
-          'conv_outcomes': set(), 'conv_inconsistent': 0}
-    for text, sfx, tname in chunk:
+          'conv_outcomes': set(), 'conv_inconsistent': 0, 'conv_tolerated_errors': 0}
+    for text, idx, sfx, tname in chunk:
         st['evaluations'] += 1
         st['conv_cases'] += 1
-        exp = conv_expect(text, tname)
+        exp = conv_expect(text, tname, idx)
         if exp[0] == 'unspec':
             st['conv_unspecified'] += 1
         else:
@@ -407,11 +464,13 @@ def conv_chunk(chunk):
         seen = []
         bydiv = {}
         for cfg in impl.CONFIGS:
-            v, obs = conv_judge(text, sfx, tname, cfg)
+            v, obs = conv_judge(text, idx, sfx, tname, cfg)
             if v:
                 bydiv.setdefault(v[0]['divergence'], []).append(v)
             seen.append(obs)
             st['conv_outcomes'].add((exp[0],) + tuple(obs[:2]))
+        if exp[0] == 'value-or-error' and seen[0][0] == 'trap':
+            st['conv_tolerated_errors'] += 1
         for div, vs in bydiv.items():
             f = dict(vs[0][0])
             f['config'] = 'all' if len(vs) == len(impl.CONFIGS) else ','.join(x[0]['config'] for x in vs)
@@ -419,8 +478,9 @@ def conv_chunk(chunk):
         if any(repr(o) != repr(seen[0]) for o in seen):
             st['conv_inconsistent'] += 1
             viol.append(({'family': 'conv', 'divergence': 'configurations-disagree', 'type': tname,
-                          'item_class': conv_item_class(text)},
-                         {'family': 'conv', 'text': text, 'sfx': sfx, 'type': tname, 'config': [0, False]},
+                          'item_class': conv_item_class(text, idx)},
+                         {'family': 'conv', 'text': text, 'index': idx, 'sfx': sfx, 'type': tname,
+                          'config': [0, False]},
                          'the same observation in all six configurations',
                          [list(o) for o in seen], len(text)))
     return viol, st
@@ -428,32 +488,69 @@ def conv_chunk(chunk):
 
 # ---------------------------------------------------------------------------
 # family place
+#
+# An arrangement is a sequence of elements; the driver loop (below) is put
+# after the first `pos` of them, so the elements before it are executed once
+# and the ones after it never.
+#
+#   D    data <items>
+#   LD   lN: data <items>            label and DATA on one line
+#   ND   <n>00 data <items>          line number as the label
+#   L    lN:                         label on a line of its own
+#   N    <n>00                       line number on a line of its own
+#   X    c% = c% + 1                 executed statement
+#   S    sub sN / mN: / end sub      procedure containing a label
+#   XD   c% = c% + 1: data <items>   DATA as the second statement of a line
+#   ID   if c% = 99 then / data <items> / end if     DATA nested in a block
 
-KINDS = ['D', 'L', 'X', 'S', 'LL', 'LX']
+KINDS_Q = ['D', 'LD', 'ND', 'L', 'X', 'S', 'XD']
+KINDS_T = KINDS_Q + ['N', 'ID']
+DATA_KINDS = ('D', 'LD', 'ND', 'XD', 'ID')
+OP_READ_N, OP_READ_S, OP_RESTORE, OP_READ_2 = 1, 2, 3, 4
+FIRST_LABEL_OP = 5
 
 
 def build(segs, pos):
-    """-> dict(lines_before, lines_after, elements, items, labels, targets)
-    for the arrangement `segs` (tuple of kinds) with the driver loop after the
-    first `pos` segments"""
-    elements = []          # in source order: ('data', [items]) ('label', name) ('stmt',) ('sublabel', name)
+    """-> dict describing the arrangement `segs` (tuple of kinds) with the
+    driver loop after the first `pos` elements"""
+    elements = []     # source order: ('data', items) ('label', name) ('stmt',) ('sublabel', name)
     seg_lines = []
-    nd = nl = ns = 0
+    nd = nl = ns = nn = 0
+
+    def data_items():
+        return ['%d1' % nd, 't%d' % nd] if nd % 2 else ['%d1' % nd]
+
     for k in segs:
         ls = []
-        if k == 'D':
+        if k in DATA_KINDS:
             nd += 1
-            its = ['%d1' % nd, 't%d' % nd] if nd % 2 else ['%d1' % nd]
-            elements.append(('data', its))
-            ls.append('data ' + ', '.join(its))
-        elif k in ('L', 'LL', 'LX'):
-            for _ in range(2 if k == 'LL' else 1):
+            its = data_items()
+            txt = 'data ' + ', '.join(its)
+            if k == 'D':
+                ls.append(txt)
+            elif k == 'LD':
                 nl += 1
                 elements.append(('label', 'l%d' % nl))
-                ls.append('l%d:' % nl)
-            if k == 'LX':
+                ls.append('l%d: %s' % (nl, txt))
+            elif k == 'ND':
+                nn += 1
+                elements.append(('label', '%d00' % nn))
+                ls.append('%d00 %s' % (nn, txt))
+            elif k == 'XD':
                 elements.append(('stmt',))
-                ls.append('c% = c% + 1')
+                ls.append('c% = c% + 1: ' + txt)
+            elif k == 'ID':
+                elements.append(('stmt',))
+                ls += ['if c% = 99 then', txt, 'end if']
+            elements.append(('data', its))
+        elif k == 'L':
+            nl += 1
+            elements.append(('label', 'l%d' % nl))
+            ls.append('l%d:' % nl)
+        elif k == 'N':
+            nn += 1
+            elements.append(('label', '%d00' % nn))
+            ls.append('%d00' % nn)
         elif k == 'X':
             elements.append(('stmt',))
             ls.append('c% = c% + 1')
@@ -461,6 +558,8 @@ def build(segs, pos):
             ns += 1
             elements.append(('sublabel', 'm%d' % ns))
             ls += ['sub s%d' % ns, 'm%d:' % ns, 'end sub']
+        else:
+            raise ValueError(k)
         seg_lines.append(ls)
     items = []
     starts = []            # element index -> item index where that DATA starts
@@ -486,29 +585,38 @@ def build(segs, pos):
             inter.add(elements[j][0])
         targets[e[1]] = tgt
         between[e[1]] = sorted(inter)
-    groups = 0
+    # item index at which a DATA statement follows a different "most recent
+    # label of any kind" than the DATA statement before it.  Used only to
+    # *name the shape* of a divergence (ledger matching), never for a verdict.
+    lastlabel_starts = []
     last = object()
     cur = None
-    for e in elements:
+    for i, e in enumerate(elements):
         if e[0] in ('label', 'sublabel'):
             cur = e[1]
         elif e[0] == 'data':
             if cur != last:
-                groups += 1
+                lastlabel_starts.append(starts[i])
                 last = cur
     before = [l for ls in seg_lines[:pos] for l in ls]
     after = [l for ls in seg_lines[pos:] for l in ls]
     return {'before': before, 'after': after, 'elements': elements, 'items': items,
-            'labels': labels, 'targets': targets, 'between': between, 'data_groups': groups,
-            'n_data': nd}
+            'labels': labels, 'targets': targets, 'between': between,
+            'lastlabel_starts': lastlabel_starts, 'n_data': nd}
 
 
 def driver(labels):
-    ls = ['do', 'input k%', 'select case k%', 'case 1', 'read n%', 'print n%',
-          'case 2', 'read s$', 'print "["; s$; "]"', 'case 3', 'restore']
+    """one operation per answer to INPUT; the variables are reset after every
+    operation so that the machine state is the read cursor and nothing else
+    (the exploration then closes after a few steps)"""
+    ls = ['do', 'input k%', 'select case k%',
+          'case 1', 'read n%', 'print n%', 'n% = 0',
+          'case 2', 'read s$', 'print "["; s$; "]"', 's$ = ""',
+          'case 3', 'restore',
+          'case 4', 'read s$, t$', 'print "["; s$; "]["; t$; "]"', 's$ = ""', 't$ = ""']
     for i, lab in enumerate(labels):
-        ls += ['case %d' % (4 + i), 'restore ' + lab]
-    ls += ['end select', 'loop']
+        ls += ['case %d' % (FIRST_LABEL_OP + i), 'restore ' + lab]
+    ls += ['end select', 'k% = 0', 'loop']
     return ls
 
 
@@ -516,36 +624,75 @@ def place_source(b, labels):
     return '\n'.join(b['before'] + driver(labels) + b['after']) + '\n'
 
 
-def model_step(b, labels, cursor, op):
-    """-> (new cursor, expected output text or None for a run-time error)"""
+def _num_out(it):
+    n = int(it)
+    return ('-' if n < 0 else ' ') + str(abs(n)) + ' \r\n'
+
+
+def model_step(b, labels, state, op, shape=None):
+    """the reference cursor.  state = (index into the concatenated item list,
+    flag used by the alternative shapes only).  -> (new state, text printed
+    by the operation, or None for a run-time error).
+
+    shape=None is the property.  shape='plain-restore-selects-last-group'
+    describes a known wrong behaviour (plain RESTORE positions at the last
+    group of DATA that share their most recent label, and reading on from
+    there continues at the first item); it is used to tag a divergence for
+    the ledger, never to accept one."""
     items = b['items']
-    if op == 1 or op == 2:
-        if cursor >= len(items):
-            return cursor, None
-        it = items[cursor]
-        if op == 1:
+    cur, flag = state
+
+    def adv(c, f):
+        c += 1
+        if f and c >= len(items):
+            return 0, False
+        return c, f
+
+    if op in (OP_READ_N, OP_READ_S):
+        if cur >= len(items):
+            return state, None
+        it = items[cur]
+        if op == OP_READ_N:
             if not _INT_RE.match(it):
-                return cursor, None
-            n = int(it)
-            return cursor + 1, ('-' if n < 0 else ' ') + str(abs(n)) + ' \r\n'
-        return cursor + 1, '[' + it + ']\r\n'
-    if op == 3:
-        return 0, ''
-    return b['targets'][labels[op - 4]], ''
+                return state, None
+            return adv(cur, flag), _num_out(it)
+        return adv(cur, flag), '[' + it + ']\r\n'
+    if op == OP_READ_2:
+        if cur >= len(items):
+            return state, None
+        a = items[cur]
+        cur, flag = adv(cur, flag)
+        if cur >= len(items):
+            return state, None
+        c = items[cur]
+        return adv(cur, flag), '[' + a + '][' + c + ']\r\n'
+    if op == OP_RESTORE:
+        if shape == 'plain-restore-selects-last-group':
+            st = b['lastlabel_starts']
+            if not st:
+                return (0, False), ''
+            return (st[-1], True), ''
+        return (0, False), ''
+    return (b['targets'][labels[op - FIRST_LABEL_OP]], False), ''
 
 
-def model_run(b, labels, ops):
-    cur = 0
+ALT_SHAPES = ['plain-restore-selects-last-group']
+
+
+def model_run(b, labels, ops, shape=None):
+    st = (0, False)
     outs = []
     for op in ops:
-        cur, o = model_step(b, labels, cur, op)
+        st, o = model_step(b, labels, st, op, shape)
         outs.append(o)
         if o is None:
             break
-    return cur, outs
+    return st, outs
 
 
-OPNAME = {1: 'read-numeric', 2: 'read-string', 3: 'restore'}
+def opname(op):
+    return {OP_READ_N: 'read-numeric', OP_READ_S: 'read-string', OP_RESTORE: 'restore',
+            OP_READ_2: 'read-two'}.get(op, 'restore-label')
 
 
 def _ops_of(path):
@@ -562,68 +709,87 @@ def _last_output(events):
     return out
 
 
+def observe_last(node):
+    """what the last operation of the path did, as far as the property cares:
+    ('out', text) | ('error', trap) | ('fault', description)"""
+    if not node.halted:
+        return ('out', _last_output(node.env.events))
+    o = node.outcome
+    if o.end == 'trap' and o.trap not in impl.MACHINE_FAULTS:
+        return ('error', o.trap)
+    return ('fault', '%s %s %s' % (o.end, o.trap, o.exc))
+
+
+def shape_of(b, labels, ops, obs):
+    """name of the alternative cursor that agrees with the property on all
+    earlier operations of the path and predicts the observation of the last
+    one, or 'other'"""
+    _, ref = model_run(b, labels, ops[:-1])
+    for shape in ALT_SHAPES:
+        _, outs = model_run(b, labels, ops, shape)
+        if len(outs) != len(ops) or outs[:-1] != ref:
+            continue
+        o = outs[-1]
+        if (o is None and obs[0] == 'error') or (o is not None and obs == ('out', o)):
+            return shape
+    return 'other'
+
+
 def explore_place(b, labels, module, depth, cfg, src, st):
-    viol = []
-    nops = 3 + len(labels)
+    nops = FIRST_LABEL_OP - 1 + len(labels)
     menu_all = [('input', str(k), 0) for k in range(1, nops + 1)]
+    info = {(): ((0, False), False)}        # path -> (model state, diverged)
 
     def menu(nd):
-        return menu_all
-
-    def feat_base(ops):
-        last_rep = 'none'
-        for o in ops[:-1]:
-            if o == 3:
-                last_rep = 'restore'
-            elif o >= 4:
-                last_rep = 'restore-label'
-        op = ops[-1]
-        f = {'family': 'place', 'op': OPNAME.get(op, 'restore-label'), 'after': last_rep,
-             'data_groups': b['data_groups'], 'config': cfgname(cfg)}
-        return f
+        return [] if info[nd.path][1] else menu_all
 
     def check(ch, parent, choice):
-        if parent is None:
-            return []
-        ops = _ops_of(ch.path)
-        cur, outs = model_run(b, labels, ops)
-        exp = outs[-1]
-        st['traces'] += 1
-        case = {'family': 'place', 'source': src, 'ops': ops, 'config': list(cfg),
+        case = {'family': 'place', 'source': src, 'ops': _ops_of(ch.path), 'config': list(cfg),
                 'labels': labels}
-        vs = []
-
-        def v(div, e, o):
-            f = feat_base(ops)
-            f['divergence'] = div
-            vs.append((f, case, e, o, len(ops) * 100 + len(src.split('\n'))))
-
-        if ch.halted:
-            o = ch.outcome
-            obs = {'end': o.end, 'trap': o.trap, 'exc': o.exc, 'output': _last_output(o.events)}
-            st['place_outcomes'].add((o.end, o.trap))
-            if o.end == 'hostexc':
-                v('host-exception', exp, obs)
-            elif o.end == 'trap' and o.trap in impl.MACHINE_FAULTS:
-                v('machine-fault', exp, obs)
-            elif exp is None:
-                if o.end != 'trap':
-                    v('missing-error', 'run-time error', obs)
-                else:
-                    st['error_leaves'] += 1
+        if parent is None:
+            info[ch.path] = ((0, False), False)
+            if ch.halted or _last_output(ch.env.events) != '':
+                info[ch.path] = ((0, False), True)
+                return [({'family': 'place', 'divergence': 'driver-did-not-start', 'config': cfgname(cfg)},
+                         case, 'the program waits for the first operation without output',
+                         list(observe_last(ch)), len(src.split('\n')))]
+            return []
+        ops = case['ops']
+        op = ops[-1]
+        mstate, _ = info[parent.path]
+        new, exp = model_step(b, labels, mstate, op)
+        obs = observe_last(ch)
+        st['traces'] += 1
+        st['place_outcomes'].add((opname(op), obs[0], obs[1][:2] if obs[0] == 'out' else obs[1]))
+        div = None
+        if obs[0] == 'fault':
+            div = 'host-exception' if ch.outcome.end == 'hostexc' else 'machine-fault'
+        elif exp is None:
+            if obs[0] != 'error':
+                div = 'missing-error'
             else:
-                v('unexpected-error', exp, obs)
-        else:
-            got = _last_output(ch.env.events)
-            st['place_outcomes'].add(('out', got[:1]))
-            if exp is None:
-                v('missing-error', 'run-time error', {'output': got})
-            elif got != exp:
-                v('output', exp, got)
-        return vs
+                st['error_leaves'] += 1
+        elif obs[0] == 'error':
+            div = 'unexpected-error'
+        elif obs[1] != exp:
+            div = 'output'
+        info[ch.path] = (new, div is not None)
+        if div is None:
+            return []
+        st['diverged_transitions'] += 1
+        last_rep = 'none'
+        for o in ops[:-1]:
+            if o == OP_RESTORE:
+                last_rep = 'restore'
+            elif o >= FIRST_LABEL_OP:
+                last_rep = 'restore-label'
+        feat = {'family': 'place', 'divergence': div, 'op': opname(op), 'after': last_rep,
+                'shape': shape_of(b, labels, ops, obs), 'config': cfgname(cfg)}
+        return [(feat, case, 'run-time error' if exp is None else exp, list(obs),
+                 len(ops) * 100 + len(src.split('\n')))]
 
     def key_extra(nd):
-        return model_run(b, labels, _ops_of(nd.path))[0]
+        return info[nd.path]
 
     vx = VX(module, menu, check=check, horizon=5000, max_depth=depth, key_extra=key_extra)
     vx.run()
@@ -633,16 +799,18 @@ def explore_place(b, labels, module, depth, cfg, src, st):
     st['dedup_hits'] += s['dedup_hits']
     st['max_depth'] = max(st['max_depth'], s['max_depth'])
     st['horizon_hits'] += s['horizon_hits']
-    viol.extend(vx.violations)
-    return viol
+    if s['max_depth'] < depth:
+        st['closed_programs'] += 1       # the frontier ran empty before the depth bound
+    st['depth_hist'][str(s['max_depth'])] = st['depth_hist'].get(str(s['max_depth']), 0) + 1
+    return vx.violations
 
 
 def place_stats():
-    return {'evaluations': 0, 'programs': 0, 'states': 0, 'transitions': 0, 'dedup_hits': 0,
-            'max_depth': 0, 'horizon_hits': 0, 'traces': 0, 'error_leaves': 0,
-            'restore_label_crash': 0, 'labels_without_data_after': 0,
-            'labels_without_data_after_crash': 0, 'labels_explored': 0,
-            'programs_with_restore_reaching_later_group': 0,
+    return {'evaluations': 0, 'programs': 0, 'explorations': 0, 'states': 0, 'transitions': 0,
+            'dedup_hits': 0, 'max_depth': 0, 'horizon_hits': 0, 'traces': 0, 'error_leaves': 0,
+            'diverged_transitions': 0, 'closed_programs': 0, 'depth_hist': {},
+            'restore_label_not_compiled': 0, 'labels_without_data_after': 0, 'labels_explored': 0,
+            'labels_reaching_past_another_label': 0,
             'place_outcomes': set(), 'compile_fallbacks': 0}
 
 
@@ -652,8 +820,8 @@ def place_one(segs, pos, depth, cfgs, st):
     st['programs'] += 1
     st['evaluations'] += 1
     live = [l for l in b['labels'] if b['targets'][l] is not None]
-    dead = [l for l in b['labels'] if b['targets'][l] is None]
-    st['labels_without_data_after'] += len(dead)
+    st['labels_without_data_after'] += len(b['labels']) - len(live)
+    size = len(segs) * 10 + pos
     for cfg in cfgs:
         labels = list(live)
         src = place_source(b, labels)
@@ -663,21 +831,22 @@ def place_one(segs, pos, depth, cfgs, st):
             st['compile_fallbacks'] += 1
             good = []
             for lab in labels:
-                r1 = compile_(place_source(b, [lab]), cfg)
+                src1 = place_source(b, [lab])
+                r1 = compile_(src1, cfg)
                 if r1.ok:
                     good.append(lab)
-                else:
-                    st['restore_label_crash'] += 1
-                    inter = b['between'][lab]
-                    viol.append(({'family': 'place', 'divergence': 'restore-label-not-compiled',
-                                  'kind': r1.kind,
-                                  'intervening_label': any(x in ('label', 'sublabel') for x in inter),
-                                  'between': '+'.join(inter) or 'nothing', 'config': cfgname(cfg)},
-                                 {'family': 'placecompile', 'source': place_source(b, [lab]),
-                                  'config': list(cfg), 'label': lab},
-                                 'RESTORE %s continues with item %d (%s)' % (lab, b['targets'][lab],
-                                                                              b['items'][b['targets'][lab]]),
-                                 r1.brief(), len(segs) * 10))
+                    continue
+                st['restore_label_not_compiled'] += 1
+                inter = b['between'][lab]
+                viol.append(({'family': 'place', 'divergence': 'restore-label-not-compiled',
+                              'kind': r1.kind,
+                              'intervening_label': any(x in ('label', 'sublabel') for x in inter),
+                              'config': cfgname(cfg)},
+                             {'family': 'placecompile', 'source': src1, 'config': list(cfg), 'label': lab,
+                              'between': '+'.join(inter) or 'nothing'},
+                             'RESTORE %s continues with item %d (%s)' % (lab, b['targets'][lab],
+                                                                          b['items'][b['targets'][lab]]),
+                             r1.brief(), size))
             labels = good
             src = place_source(b, labels)
             r = compile_(src, cfg)
@@ -685,24 +854,21 @@ def place_one(segs, pos, depth, cfgs, st):
             viol.append(({'family': 'place', 'divergence': 'arrangement-not-compiled', 'kind': r.kind,
                           'config': cfgname(cfg)},
                          {'family': 'placecompile', 'source': src, 'config': list(cfg), 'label': None},
-                         'a module', r.brief(), len(segs) * 10))
+                         'a module', r.brief(), size))
             continue
         st['labels_explored'] += len(labels)
+        st['labels_reaching_past_another_label'] += sum(
+            1 for l in labels if any(x in ('label', 'sublabel') for x in b['between'][l]))
+        st['explorations'] += 1
         viol.extend(explore_place(b, labels, impl.load(r.binary), depth, cfg, src, st))
-    # labels no DATA follows: the property says nothing; only count what the
-    # compiler does with them (a crash there is C06's finding)
-    for lab in dead:
-        r1 = compile_(place_source(b, [lab]), (0, False))
-        if r1.kind == 'crash':
-            st['labels_without_data_after_crash'] += 1
     return viol
 
 
-def place_chunk(chunk, depth, cfgs):
+def place_chunk(chunk, depth):
     impl.parse_cache(True)
     viol = []
     st = place_stats()
-    for segs, pos in chunk:
+    for segs, pos, cfgs in chunk:
         viol.extend(place_one(segs, pos, depth, cfgs, st))
     return viol, st
 
@@ -715,12 +881,32 @@ def all_texts(maxlen):
             yield ''.join(t)
 
 
-def arrangements(maxseg, kinds):
+CORE_KINDS = ['D', 'LD', 'L', 'S', 'X']
+LABEL_KINDS = ['D', 'LD', 'L', 'S']
+# (number of elements, kinds, driver positions: 'all' or 'three', configurations)
+PLAN_Q = [(1, KINDS_T, 'all', PLACE_CONFIGS_T), (2, KINDS_T, 'all', PLACE_CONFIGS_T),
+          (3, KINDS_Q, 'all', PLACE_CONFIGS_Q), (4, LABEL_KINDS, 'three', PLACE_CONFIGS_Q)]
+PLAN_T = [(1, KINDS_T, 'all', PLACE_CONFIGS_T), (2, KINDS_T, 'all', PLACE_CONFIGS_T),
+          (3, KINDS_T, 'all', PLACE_CONFIGS_T), (4, KINDS_Q, 'three', PLACE_CONFIGS_Q),
+          (5, CORE_KINDS, 'three', PLACE_CONFIGS_Q)]
+
+
+def arrangements(plan):
+    """every sequence of n elements over the kinds of each plan row that has
+    no two executed statements in a row (X X is X as far as DATA is
+    concerned) and, beyond two elements, at least one DATA; the driver at
+    every position ('all') or before / in the middle of / after the elements
+    ('three').  -> list of (segs, pos, configs)"""
     out = []
-    for n in range(1, maxseg + 1):
+    for n, kinds, posrule, cfgs in plan:
         for segs in itertools.product(kinds, repeat=n):
-            for pos in range(0, n + 1):
-                out.append((segs, pos))
+            if any(a == 'X' and c == 'X' for a, c in zip(segs, segs[1:])):
+                continue
+            if n > 2 and not any(k in DATA_KINDS for k in segs):
+                continue
+            poss = range(0, n + 1) if posrule == 'all' else sorted({0, n // 2, n})
+            for pos in poss:
+                out.append((segs, pos, tuple(cfgs)))
     return out
 
 
@@ -759,11 +945,11 @@ def run(chk):
 
     # ---- conv
     if not only or 'conv' in only:
-        cases = [(t, s, n) for t in CONV_ITEMS for s, n in TYPES]
+        cases = [(t, i, s, n) for t, i in CONV_ITEMS for s, n in TYPES]
         for viol, st in chk.pmap(conv_chunk, cases, chunk=5):
             chk.add_violations(viol)
             chk.merge_stats(st)
-        fams['conv'] = {'items': CONV_ITEMS, 'types': [n for _, n in TYPES], 'cases': len(cases),
+        fams['conv'] = {'items': [list(x) for x in CONV_ITEMS], 'types': [n for _, n in TYPES], 'cases': len(cases),
                         'configs': [cfgname(c) for c in impl.CONFIGS]}
         chk.sample({'family': 'conv', 'source': conv_source('2.5', '!')})
     else:
@@ -771,23 +957,26 @@ def run(chk):
 
     # ---- place
     if not only or 'place' in only:
-        if quick:
-            maxseg, depth, cfgs = 4, 4, PLACE_CONFIGS_Q
-        else:
-            maxseg, depth, cfgs = 5, 5, PLACE_CONFIGS_T
-        arr = arrangements(maxseg, KINDS)
+        plan, depth = (PLAN_Q, 12) if quick else (PLAN_T, 16)
+        if 'PLACE_MAXSEG' in os.environ:          # development only
+            plan = [r for r in plan if r[0] <= int(os.environ['PLACE_MAXSEG'])]
+        arr = arrangements(plan)
         # neighbours share their lines: keep product order, small chunks
         maxd = 0
-        for viol, st in chk.pmap(place_chunk, arr, extra=(depth, cfgs), chunk=24):
+        for viol, st in chk.pmap(place_chunk, arr, extra=(depth,), chunk=12):
             chk.add_violations(viol)
             maxd = max(maxd, st.pop('max_depth'))
             chk.merge_stats(st)
         chk.cov['max_depth'] = maxd
-        fams['place'] = {'segment_kinds': KINDS, 'max_segments': maxseg, 'driver_positions': 'all',
-                         'programs': len(arr), 'ops': ['READ n%', 'READ s$', 'RESTORE', 'RESTORE <each label that has DATA at or after it>'],
-                         'max_ops': depth, 'configs': [cfgname(c) for c in cfgs]}
+        fams['place'] = {'plan': [{'elements': n, 'kinds': k, 'driver_positions': p,
+                                   'configs': [cfgname(c) for c in cf]} for n, k, p, cf in plan],
+                         'excluded': 'two executed statements in a row; more than two elements without any DATA',
+                         'programs': len(arr),
+                         'ops': ['READ n%', 'READ s$', 'RESTORE', 'READ s$, t$',
+                                 'RESTORE <each label that has DATA at or after it>'],
+                         'max_ops': depth}
         for a in (arr[3], arr[len(arr) // 2], arr[-1]):
-            b = build(*a)
+            b = build(a[0], a[1])
             chk.sample({'family': 'place', 'segments': list(a[0]), 'driver_after': a[1],
                         'source': place_source(b, [l for l in b['labels'] if b['targets'][l] is not None])})
     else:
@@ -806,6 +995,9 @@ def run(chk):
         'texts with a quote inside an unquoted item, text after a closing quote or an unclosed quote are unspecified: only "the compiler does not crash" is demanded',
         'lengths 7-8 are judged through qbee.utils.parse_data only; its agreement with the compiled path is measured on every compiled text (direct_agree / direct_disagree_*)',
         'RESTORE to a label that no DATA statement follows at all is left open by the statement: such labels are counted, not explored',
+        'place: a path is not continued beyond its first divergence from the cursor model; while a ledger entry is open the sequences behind its divergences are therefore unexplored (diverged_transitions)',
+        'place: closed_programs counts explorations whose frontier ran empty before the depth bound (then every longer operation sequence revisits an explored machine state)',
+        'conv: a fractional numeral read into an integer variable may be rounded half to even or be a run-time error, never another value; numerals outside the target range, quoted items into numeric variables, radix numerals and numerals with blanks inside are unspecified',
         'per-line parse memo is byte-identical to re-parsing (checked by C20/C02)']
     chk.finish(
         rule=('tok: every text over the alphabet up to the bound is one case; non-trivial = specified text with '
@@ -866,13 +1058,14 @@ def replay(rec):
         print('observed:', got if got is not None else r.brief())
         return 1 if got != exp else 0
     if fam == 'conv':
-        v, obs = conv_judge(case['text'], case['sfx'], case['type'], tuple(case['config']))
+        idx = case.get('index', 0)
+        v, obs = conv_judge(case['text'], idx, case['sfx'], case['type'], tuple(case['config']))
         print('--- program ---')
-        print(conv_source(case['text'], case['sfx']))
-        print('expected:', conv_expect(case['text'], case['type']))
+        print(conv_source(case['text'], case['sfx'], idx))
+        print('expected:', conv_expect(case['text'], case['type'], idx))
         print('observed:', obs)
         if rec['features'].get('divergence') == 'configurations-disagree':
-            seen = [conv_judge(case['text'], case['sfx'], case['type'], c)[1] for c in impl.CONFIGS]
+            seen = [conv_judge(case['text'], idx, case['sfx'], case['type'], c)[1] for c in impl.CONFIGS]
             print('all configurations:', seen)
             return 1 if any(repr(o) != repr(seen[0]) for o in seen) else 0
         return 1 if v else 0
@@ -909,6 +1102,8 @@ def replay(rec):
         print('expected for the last operation:', repr(rec.get('expected')))
         print('observed: end=%s trap=%s output=%r' % (out.end, out.trap, last))
         exp = rec.get('expected')
+        if rec['features'].get('divergence') == 'driver-did-not-start':
+            return 0 if (out.end == 'exhausted' and last == '') else 1
         want_error = exp in ('run-time error', None)
         if out.end == 'trap':
             bad = (not want_error) or out.trap in impl.MACHINE_FAULTS
